@@ -129,6 +129,118 @@ theorem c10_aug_e_extra_required {X Y : Type} {D : AugDec X Y} (n : Nat) (c : Ce
     | dict r => simp [hy]
   · simp [loadHashmapAugE, hy]
 
+/-! ### labels longer than the remaining key are refused (repaired behaviour) -/
+
+/-- hashmap.tlb puts `{n <= m}` on all three `HmLabel` constructors.  `deserialize_hml` on the bit pattern of ANY constructor for a
+label `s` under bound `m` (`LabelBits`: the pattern without the side condition) returns `(|s|, s, rest)` iff `|s| ≤ m` and raises
+otherwise; the patterns it returns are exactly the spec's `LabelEnc`. -/
+theorem c10_label_accepted_iff {m : Nat} {s : Bits} {k : LabelKind} {lb : Bits} (h : LabelBits m s k lb) (rest : Bits) :
+    (deserializeHml (lb ++ rest) (m : Int) = some (s.length, s, rest) ↔ LabelEnc m s k lb) ∧
+    (deserializeHml (lb ++ rest) (m : Int) = none ↔ m < s.length) := by
+  rw [deserializeHml_bits h, labelEnc_iff_bits]
+  by_cases hl : s.length ≤ m
+  · simp [hl, h] <;> omega
+  · simp [hl] <;> omega
+
+/-- A LABEL LONGER THAN THE REMAINING KEY IS REFUSED, at the root: a cell whose data starts with the pattern of any label
+constructor for a label of more than `m` bits makes `parse` raise at key length `m` (whatever the cell type: `parse` reads the
+label first), hence `parse_hashmap`, `HashMap.parse`, `HashMap.from_cell`, `load_dict` raise; an ordinary such cell makes
+`parse_aug` / `parse_hashmap_aug` / `load_hashmap_aug_e` raise.  Before the repair the remaining length `m - n` went negative and
+the parsers walked on below such an edge, returning an empty result. -/
+theorem c10_label_too_long_rejected {m : Nat} {s : Bits} {k : LabelKind} {lb : Bits} (h : LabelBits m s k lb) (hlong : m < s.length)
+    (rest : Bits) (kind : Int) (refs : List Cell) (pfx : Bits) :
+    parseEdge (.mk kind (lb ++ rest) refs) m pfx = none ∧
+    parseHashmap (.mk kind (lb ++ rest) refs) m = none ∧
+    (match hashMapParse (.mk (-1) (lb ++ rest) refs) m with | .err => True | _ => False) ∧
+    fromCell (.mk kind (lb ++ rest) refs) m = none ∧
+    (∀ (b : Bits) (more : List Cell),
+      match loadDict (true :: b) (.mk (-1) (lb ++ rest) refs :: more) m with | .err => True | _ => False) ∧
+    (∀ {X Y : Type} (D : AugDec X Y), parseAugEdge D (.mk (-1) (lb ++ rest) refs) m pfx = none ∧
+      (match parseHashmapAug D (.mk (-1) (lb ++ rest) refs) m with | .err => True | _ => False) ∧
+      (∀ (b : Bits) (more : List Cell),
+        match loadHashmapAugE D (-1) (true :: b) (.mk (-1) (lb ++ rest) refs :: more) m with | .err => True | _ => False)) := by
+  have hd : deserializeHml (lb ++ rest) (m : Int) = none := ((c10_label_accepted_iff h rest).2).2 hlong
+  have hp : ∀ pfx, parseEdge (.mk kind (lb ++ rest) refs) m pfx = none := fun _ => parseEdge_label_none hd
+  have hp' : ∀ pfx, parseEdge (.mk (-1) (lb ++ rest) refs) m pfx = none := fun _ => parseEdge_label_none hd
+  refine ⟨hp pfx, hp [], ?_, ?_, ?_, ?_⟩
+  · simp [hashMapParse, parseHashmap, hp']
+  · simp [fromCell, parseHashmap, hp]
+  · intro b more; simp [loadDict, hashMapParse, parseHashmap, hp']
+  · intro X Y D
+    have ha : ∀ pfx, parseAugEdge D (.mk (-1) (lb ++ rest) refs) m pfx = none := fun _ => parseAugEdge_label_none D hd
+    refine ⟨ha pfx, by simp [parseHashmapAug, ha], ?_⟩
+    intro b more
+    simp [loadHashmapAugE, parseHashmapAug, ha]
+
+/-- … and BELOW FORKS: under a fork with a valid label (`LabelEnc`, `m` key bits remaining for the children) a child — left or
+right, whatever the other child is — whose label pattern announces more than `m` bits makes the whole parse raise, in `parse` and
+in `parse_aug` (an exception anywhere ends the whole parse: `parseFork_none`, `parseAugFork_none`). -/
+theorem c10_label_too_long_below_fork {n m : Nat} {s : Bits} {k : LabelKind} {lb : Bits} (hl : LabelEnc n s k lb)
+    (hn : n = s.length + 1 + m) {s' : Bits} {k' : LabelKind} {lb' : Bits} (h' : LabelBits m s' k' lb') (hlong : m < s'.length)
+    (rest rest' : Bits) (kind' : Int) (refs' more : List Cell) (other : Cell) (pfx : Bits) :
+    parseEdge (.mk (-1) (lb ++ rest) (.mk kind' (lb' ++ rest') refs' :: other :: more)) n pfx = none ∧
+    parseEdge (.mk (-1) (lb ++ rest) (other :: .mk kind' (lb' ++ rest') refs' :: more)) n pfx = none ∧
+    (∀ {X Y : Type} (D : AugDec X Y),
+      parseAugEdge D (.mk (-1) (lb ++ rest) (.mk (-1) (lb' ++ rest') refs' :: other :: more)) n pfx = none ∧
+      parseAugEdge D (.mk (-1) (lb ++ rest) (other :: .mk (-1) (lb' ++ rest') refs' :: more)) n pfx = none) := by
+  have hm : ((n : Int) - (s.length : Int) = 0) = False := by simp; omega
+  have hm2 : (n : Int) - (s.length : Int) - 1 = (m : Int) := by omega
+  have hbad : ∀ kind pfx, parseEdge (.mk kind (lb' ++ rest') refs') m pfx = none :=
+    fun kind pfx => (c10_label_too_long_rejected h' hlong rest' kind refs' pfx).1
+  refine ⟨?_, ?_, ?_⟩
+  · rw [parseEdge, deserializeHml_enc hl]
+    simp only [ne_eq, not_true_eq_false, if_false, hm, hm2]
+    exact parseFork_none (Or.inl (hbad _ _))
+  · rw [parseEdge, deserializeHml_enc hl]
+    simp only [ne_eq, not_true_eq_false, if_false, hm, hm2]
+    exact parseFork_none (Or.inr (hbad _ _))
+  · intro X Y D
+    have hbadA : ∀ pfx, parseAugEdge D (.mk (-1) (lb' ++ rest') refs') m pfx = none :=
+      fun pfx => ((c10_label_too_long_rejected h' hlong rest' (-1) refs' pfx).2.2.2.2.2 D).1
+    constructor
+    · rw [parseAugEdge, deserializeHml_enc hl]
+      simp only [ne_eq, not_true_eq_false, if_false, hm, hm2]
+      exact parseAugFork_none D (Or.inl (hbadA _))
+    · rw [parseAugEdge, deserializeHml_enc hl]
+      simp only [ne_eq, not_true_eq_false, if_false, hm, hm2]
+      exact parseAugFork_none D (Or.inr (hbadA _))
+
+/-- AT EVERY DEPTH: a `parse` that returns has walked only through edges whose label is readable and not longer than the key
+length remaining at that edge (`labelsFit`: the walk follows the first two references of ordinary cells whose label leaves key
+bits over, with the remaining length minus the fork bit) — so the remaining key length is `≥ 0` at every edge of the walk, and
+a negative key length is refused at once. -/
+theorem c10_parse_labels_fit (c : Cell) (n : Int) (kv : List (Bits × Val)) (h : parseEdge c n [] = some kv) :
+    labelsFit c n ∧ 0 ≤ n :=
+  ⟨parseEdge_labelsFit c n [] kv h, labelsFit_nonneg c n (parseEdge_labelsFit c n [] kv h)⟩
+
+theorem c10_negative_key_rejected (c : Cell) (n : Int) (hn : n < 0) (pfx : Bits) :
+    parseEdge c n pfx = none ∧
+    (∀ {X Y : Type} (D : AugDec X Y) (bits : Bits) (refs : List Cell), parseAugEdge D (.mk (-1) bits refs) n pfx = none) :=
+  ⟨parseEdge_neg c hn pfx, fun D bits refs => parseAugEdge_neg D bits refs hn pfx⟩
+
+/-! non-vacuity: over-long labels of all three constructors at key length 2 (3 bits announced; the `#<= 2` field is 2 bits wide) -/
+example : parseHashmap (.mk (-1) [false, true, true, true, false, true, false, true] []) 2 = none
+    ∧ parseHashmap (.mk (-1) [true, false, true, true, true, false, true] []) 2 = none
+    ∧ parseHashmap (.mk (-1) [true, true, true, true, true] []) 2 = none := by
+  have overShort : LabelBits 2 [true, false, true] .short [false, true, true, true, false, true, false, true] := by
+    have := LabelBits.short (m := 2) (s := [true, false, true]); simpa using this
+  have overLong : LabelBits 2 [true, false, true] .long [true, false, true, true, true, false, true] := by
+    have := LabelBits.long (m := 2) (s := [true, false, true]) (by simp [lenBits, bitLength])
+    simpa [lenBits, bitLength, natToBits] using this
+  have overSame : LabelBits 2 [true, true, true] .same [true, true, true, true, true] := by
+    have := LabelBits.same (m := 2) (s := [true, true, true]) true (by simp) (by simp [lenBits, bitLength])
+    simpa [lenBits, bitLength, natToBits] using this
+  have a := (c10_label_too_long_rejected overShort (by decide) [] (-1) [] []).2.1
+  have b := (c10_label_too_long_rejected overLong (by decide) [] (-1) [] []).2.1
+  have c := (c10_label_too_long_rejected overSame (by decide) [] (-1) [] []).2.1
+  simp only [List.append_nil, Nat.cast_ofNat] at a b c
+  exact ⟨a, b, c⟩
+/-- below a fork: the right child announces 2 bits with 1 remaining -/
+example : parseHashmap (.mk (-1) [false, false] [.mk (-1) [false, true, false, true] [], .mk (-1) [false, true, true, false, true, true] []]) 2 = none
+    ∧ parseHashmap (.mk (-1) [false, false] [.mk (-1) [false, true, false, true] [], .mk (-1) [false, true, false, true] []]) 2
+      = some [([false, true], ([], [])), ([true, true], ([], []))] := by
+  refine ⟨by rfl, by rfl⟩
+
 /-! non-vacuity of `c10_parse_any`: -/
 /-- a non-canonical but valid 1-bit dictionary {0 ↦ 1111, 1 ↦ 0000}: root label `hml_long`, leaf labels `hml_same` / `hml_long` -/
 def exCell : Cell :=
